@@ -59,3 +59,22 @@ pub fn fmax(a: f64, b: f64) -> f64 {
 pub fn beq(a: f64, b: f64) -> bool {
     a.to_bits() == b.to_bits()
 }
+
+/// environment stub: `anyhow!` captures a `std::backtrace::Backtrace` (reads the environment, walks
+/// the stack, demangles); irrelevant to every property and enormous for symbolic execution
+pub fn no_backtrace() -> std::backtrace::Backtrace {
+    std::backtrace::Backtrace::disabled()
+}
+
+/// turn an `anyhow::Result` into an `Option` without ever running the drop glue of `anyhow::Error`
+/// (its backtrace frames are a symbolic-length heap structure: thousands of unwinding steps)
+#[inline(never)]
+pub fn strip<T>(r: anyhow::Result<T>) -> Option<T> {
+    match r {
+        Ok(x) => Some(x),
+        Err(e) => {
+            std::mem::forget(e);
+            None
+        }
+    }
+}
